@@ -46,6 +46,10 @@ func init() {
 			return genFOExpireAllRace(r)
 		}
 
+		if run%8 == 6 {
+			return genC02BgWaiters(r)
+		}
+
 		// a quarter of the random runs: callers also rewrite / reuse their key buffers after Get returned
 		// (a result that lands under another key is a value "belonging to another key")
 		return genFOBase(r, foShape{minClients: 1, maxClients: 6, maxKeys: 3, maxOps: 4, sleeps: true, skipRead: true, faults: true, ctxTTL: false, callerTricks: run%8 == 0})
@@ -128,6 +132,51 @@ func genC04Waiters(r *rand.Rand) *Scenario {
 	// schedules with a few change points do that far more often than uniform random choice
 	if chance(r, 0.7) {
 		sc.Sched = SchedSpec{Kind: "pct", Seed: r.Uint64(), Depth: 2 + r.IntN(3), Horizon: 40 + r.IntN(80)}
+	}
+
+	return sc
+}
+
+// genC02BgWaiters: a waiter on a BACKGROUND update (a forced refresh, or a Get that finds the re-stored copy expired
+// again, while the update of a stale value runs detached from the Get that started it), and Gets of other, missing
+// keys that arrive within a few scheduling steps of the end of that update: the waiter picks its result up while the
+// frontend is already busy with other keys' locks.
+func genC02BgWaiters(r *rand.Rand) *Scenario {
+	sc := genFOBase(r, foShape{minClients: 3, maxClients: 5, maxKeys: 3, maxOps: 1})
+	fo := sc.FO
+	fo.Faults = FOFaults{}
+	fo.Cfg.SyncUpdate = false
+	fo.Cfg.SyncRead = chance(r, 0.5)
+	fo.Cfg.MaxStalenessNs = 0
+	fo.Cfg.UpdateTTLNs = pick(r, int64(0), ms)
+	fo.Cfg.Logger = chance(r, 0.5)
+	fo.BackendTTLNs = 3600 * sec
+	fo.BackendJitter = -1
+
+	for len(fo.Keys) < 3 {
+		fo.Keys = append(fo.Keys, fmt.Sprintf("k%d", len(fo.Keys)))
+	}
+
+	fo.Init = []FOInit{{Key: 0, State: "stale", AgeNs: sec, FailAgeNs: -1}, {Key: 1, State: "absent", FailAgeNs: -1}, {Key: 2, State: "absent", FailAgeNs: -1}}
+	build := pick(r, sec, 2*sec)
+
+	for c := range fo.Clients {
+		switch {
+		case c == 0:
+			fo.Clients[c] = []FOOp{{Kind: "get", Key: 0, BuildSleepNs: build}}
+		case c == 1:
+			// arrives while the background update runs and cannot be served from the backend
+			fo.Clients[c] = []FOOp{{Kind: "sleep", SleepNs: int64(20+r.IntN(60)) * sc.TickNs}, {Kind: "get", Key: 0, SkipRead: true}}
+		default:
+			fo.Clients[c] = []FOOp{{Kind: "sleep", SleepNs: build + int64(r.IntN(160)-40)*sc.TickNs}, {Kind: "get", Key: 1 + r.IntN(2), BuildFail: chance(r, 0.2)}}
+		}
+	}
+
+	sc.NoFastPath = true
+	sc.Sched = genSched(r, 200)
+
+	if chance(r, 0.6) {
+		sc.Sched = SchedSpec{Kind: "pct", Seed: r.Uint64(), Depth: 2 + r.IntN(3), Horizon: 80 + r.IntN(120)}
 	}
 
 	return sc
